@@ -423,6 +423,15 @@ Record idx_ok (s : istate) : Prop := {
   I_meta : forall d a, ohas d (by_denom s) = true -> In a (metal s d) -> oget a (alias s) = Some d
 }.
 
+Record pidx_ok (s : istate) : Prop := {
+  PI_pair : forall id p, pget id (pairs s) = Some p ->
+             id = (pr_erc p, pr_denom p) /\ oget (pr_denom p) (by_denom s) = Some id /\ oget (pr_erc p) (by_erc s) = Some id;
+  PI_denom : forall d id, oget d (by_denom s) = Some id -> exists p, pget id (pairs s) = Some p /\ pr_denom p = d;
+  PI_erc : forall e id, oget e (by_erc s) = Some id -> exists p, pget id (pairs s) = Some p /\ pr_erc p = e
+}.
+Lemma idx_ok_pidx s : idx_ok s -> pidx_ok s.
+Proof. intros [P1 P2 P3 _ _]. constructor; assumption. Qed.
+
 Definition i_empty : istate := {| pairs := []; by_denom := []; by_erc := []; alias := []; meta := []; mstyle := [] |}.
 Lemma idx_ok_empty : idx_ok i_empty.
 Proof. constructor; cbn; intros; try discriminate. Qed.
@@ -487,9 +496,11 @@ Proof.
       apply inZ_In in Ea. destruct (Hfree a Ea) as [_ [_ F3]]. congruence.
 Qed.
 
-Lemma irun_ok o s s' : idx_ok s -> irun o s = Some s' -> idx_ok s'.
+Definition no_export (o : iop) : bool := match o with IExportImport => false | _ => true end.
+
+Lemma irun_ok o s s' : no_export o = true -> idx_ok s -> irun o s = Some s' -> idx_ok s'.
 Proof.
-  intros Hok H. destruct o; cbn [irun] in H.
+  intros Hnx Hok H. destruct o; cbn [irun] in H.
   - (* RegisterCoin *)
     destruct (ohas base (by_denom s)) eqn:E1; [discriminate|]. destruct (ohas base (alias s)) eqn:E2; [discriminate|].
     destruct (forallb (alias_free s base) aliases) eqn:E3; [|discriminate]. destruct (nodupZ aliases); [|discriminate].
@@ -577,14 +588,129 @@ Proof.
       pose proof (P5 d a' Hd' Hin) as Q. rewrite Hdel. destruct (inZ a' (metal s (pr_denom p))) eqn:Ein; [|assumption].
       apply inZ_In in Ein. assert (Hr : ohas (pr_denom p) (by_denom s) = true) by (apply ohas_true; eauto).
       pose proof (P5 _ _ Hr Ein). congruence.
+  - (* ExportImport *) cbn [no_export] in Hnx. discriminate.
 Qed.
 
-Theorem indexes_consistent ops : forall s, idx_ok s -> idx_ok (isteps s ops).
+(* over every history WITHOUT a genesis export + import all four indexes and the bank metadata stay consistent *)
+Theorem indexes_consistent ops : forallb no_export ops = true -> forall s, idx_ok s -> idx_ok (isteps s ops).
+Proof.
+  induction ops as [|o ops IH]; intros Hne s Hs; cbn [isteps fold_left]; [assumption|].
+  cbn [forallb] in Hne. apply andb_true_iff in Hne as [Ho Hne].
+  fold (isteps (fst (istep s o)) ops). apply IH; [assumption|]. unfold istep. destruct (irun o s) eqn:E; cbn [fst]; [|assumption].
+  eapply irun_ok; eassumption.
+Qed.
+
+(* the pair store, the denom index and the contract index stay consistent over EVERY history, exports + imports included *)
+Lemma pidx_ok_register s base c mo al' meta' st :
+  pidx_ok s -> ohas base (by_denom s) = false -> ohas c (by_erc s) = false ->
+  pidx_ok (add_pair {| pr_erc := c; pr_denom := base; pr_enabled := true; pr_module_owned := mo |}
+             {| pairs := pairs s; by_denom := by_denom s; by_erc := by_erc s; alias := al'; meta := meta'; mstyle := st |}).
+Proof.
+  intros [P1 P2 P3] Hb Hc. apply ohas_false in Hb, Hc.
+  unfold add_pair. cbn [pr_erc pr_denom pairs by_denom by_erc alias meta mstyle].
+  constructor; cbn [pairs by_denom by_erc alias meta pget].
+  - intros id p. destruct (pid_eqb id (c, base)) eqn:E.
+    + apply pid_eqb_eq in E. subst. intros [= <-]. cbn [pr_erc pr_denom]. rewrite !oget_oset, !Z.eqb_refl. auto.
+    + intros Hp. destruct (P1 id p Hp) as [E1 [E2 E3]]. split; [assumption|]. rewrite !oget_oset.
+      destruct (Z.eqb_spec (pr_denom p) base) as [Ed|Ed]; [rewrite Ed in E2; congruence|].
+      destruct (Z.eqb_spec (pr_erc p) c) as [Ee|Ee]; [rewrite Ee in E3; congruence|]. auto.
+  - intros d id. rewrite oget_oset. destruct (Z.eqb_spec d base).
+    + intros [= <-]. subst. rewrite (proj2 (pid_eqb_eq (c, base) (c, base)) eq_refl). eauto.
+    + intros Hd. destruct (P2 d id Hd) as [p [Hp Ep]]. exists p. split; [|assumption].
+      destruct (pid_eqb id (c, base)) eqn:E; [|assumption]. apply pid_eqb_eq in E. subst.
+      destruct (P1 _ _ Hp) as [E1 _]. injection E1 as E1 E2. congruence.
+  - intros e id. rewrite oget_oset. destruct (Z.eqb_spec e c).
+    + intros [= <-]. subst. rewrite (proj2 (pid_eqb_eq (c, base) (c, base)) eq_refl). eauto.
+    + intros He. destruct (P3 e id He) as [p [Hp Ep]]. exists p. split; [|assumption].
+      destruct (pid_eqb id (c, base)) eqn:E; [|assumption]. apply pid_eqb_eq in E. subst.
+      destruct (P1 _ _ Hp) as [E1 _]. injection E1 as E1 E2. congruence.
+Qed.
+
+Lemma irun_pidx_ok o s s' : pidx_ok s -> irun o s = Some s' -> pidx_ok s'.
+Proof.
+  intros Hok H. destruct o; cbn [irun] in H.
+  - (* RegisterCoin *)
+    destruct (ohas base (by_denom s)) eqn:E1; [discriminate|]. destruct (ohas base (alias s)) eqn:E2; [discriminate|].
+    destruct (forallb (alias_free s base) aliases) eqn:E3; [|discriminate]. destruct (nodupZ aliases); [|discriminate].
+    destruct (ohas contract (by_erc s)) eqn:E4; [discriminate|]. cbn [orb negb] in H.
+    destruct (oget base (meta s)) as [old|] eqn:Em.
+    + destruct (eq_aliases old aliases && match oget base (mstyle s) with Some 1 => true | _ => false end); [|discriminate].
+      injection H as <-. apply pidx_ok_register; auto.
+    + injection H as <-. apply pidx_ok_register; auto.
+  - (* RegisterERC20 *)
+    destruct (ohas contract (by_erc s)) eqn:E4; [discriminate|]. destruct (ohas base (by_denom s)) eqn:E1; [discriminate|].
+    destruct (ohas base (alias s)) eqn:E2; [discriminate|].
+    destruct (forallb (alias_free s base) aliases) eqn:E3; [|discriminate]. destruct (nodupZ aliases); [|discriminate].
+    destruct (ohas base (meta s)); [discriminate|]. cbn [orb negb] in H. injection H as <-. apply pidx_ok_register; auto.
+  - (* Toggle *)
+    destruct (oget k (if by_contract then by_erc s else by_denom s)) as [id|] eqn:Ek; [|discriminate].
+    destruct (pget id (pairs s)) as [p|] eqn:Ep; [|discriminate]. injection H as <-.
+    destruct Hok as [P1 P2 P3]. constructor; cbn [pairs by_denom by_erc alias meta pget]; try assumption.
+    + intros id' p'. destruct (pid_eqb id' id) eqn:E.
+      * apply pid_eqb_eq in E. subst. intros [= <-]. cbn [pr_erc pr_denom]. apply P1. assumption.
+      * apply P1.
+    + intros d id' Hd. destruct (P2 d id' Hd) as [p' [Hp' Ed]]. destruct (pid_eqb id' id) eqn:E.
+      * apply pid_eqb_eq in E. subst. rewrite Ep in Hp'. injection Hp' as <-. eexists. split; [reflexivity|reflexivity].
+      * eauto.
+    + intros e id' He. destruct (P3 e id' He) as [p' [Hp' Ee]]. destruct (pid_eqb id' id) eqn:E.
+      * apply pid_eqb_eq in E. subst. rewrite Ep in Hp'. injection Hp' as <-. eexists. split; [reflexivity|reflexivity].
+      * eauto.
+  - (* UpdateAlias *)
+    destruct (negb (ohas denom (by_denom s)) || ohas a (by_denom s)); [discriminate|].
+    destruct (oget denom (meta s)) as [old|]; [|discriminate].
+    destruct Hok as [P1 P2 P3].
+    destruct (oget a (alias s)) as [d'|].
+    + destruct (d' =? denom); [|discriminate]. injection H as <-. constructor; assumption.
+    + injection H as <-. constructor; assumption.
+  - (* Remove *)
+    destruct (oget denom (by_denom s)) as [id|] eqn:Ed; [|discriminate].
+    destruct (pget id (pairs s)) as [p|] eqn:Ep; [|discriminate]. destruct (negb (pr_enabled p)); [discriminate|]. injection H as <-.
+    destruct Hok as [P1 P2 P3].
+    destruct (P1 id p Ep) as [Eid [Ebd Ebe]].
+    constructor; cbn [pairs by_denom by_erc alias meta pget].
+    + intros id' p'. destruct (pid_eqb id' id) eqn:E; [discriminate|]. intros Hp'.
+      destruct (P1 id' p' Hp') as [E1 [E2 E3]]. split; [assumption|]. rewrite !(@oget_odel pid).
+      destruct (Z.eqb_spec (pr_denom p') (pr_denom p)) as [Eq|Eq]; [rewrite Eq in E2; rewrite E2 in Ebd; injection Ebd as ->; rewrite (proj2 (pid_eqb_eq id id) eq_refl) in E; discriminate|].
+      destruct (Z.eqb_spec (pr_erc p') (pr_erc p)) as [Eq2|Eq2]; [rewrite Eq2 in E3; rewrite E3 in Ebe; injection Ebe as ->; rewrite (proj2 (pid_eqb_eq id id) eq_refl) in E; discriminate|].
+      auto.
+    + intros d id'. rewrite (@oget_odel pid). destruct (Z.eqb_spec d (pr_denom p)); [discriminate|]. intros Hd.
+      destruct (P2 d id' Hd) as [p' [Hp' Ed']]. exists p'. split; [|assumption].
+      destruct (pid_eqb id' id) eqn:E; [|assumption]. apply pid_eqb_eq in E. subst id'. rewrite Ep in Hp'. injection Hp' as <-. congruence.
+    + intros e id'. rewrite (@oget_odel pid). destruct (Z.eqb_spec e (pr_erc p)); [discriminate|]. intros He.
+      destruct (P3 e id' He) as [p' [Hp' Ee']]. exists p'. split; [|assumption].
+      destruct (pid_eqb id' id) eqn:E; [|assumption]. apply pid_eqb_eq in E. subst id'. rewrite Ep in Hp'. injection Hp' as <-. congruence.
+  - (* ExportImport *) injection H as <-. destruct Hok as [P1 P2 P3]. constructor; assumption.
+Qed.
+
+Theorem pair_indexes_consistent ops : forall s, pidx_ok s -> pidx_ok (isteps s ops).
 Proof.
   induction ops as [|o ops IH]; intros s Hs; cbn [isteps fold_left]; [assumption|].
   fold (isteps (fst (istep s o)) ops). apply IH. unfold istep. destruct (irun o s) eqn:E; cbn [fst]; [|assumption].
-  eapply irun_ok; eassumption.
+  eapply irun_pidx_ok; eassumption.
 Qed.
+
+(* the full reading is false on the code as it is: after a genesis export + import the alias index is empty although
+   the bank metadata of a registered denom still lists its aliases (known/C08.json: C08-2); the harness replays this
+   history on the real application *)
+Definition ex_export_hist : list iop := [IRegisterCoin 10 [11; 12] 500; IExportImport].
+Theorem indexes_export_import_refuted :
+  idx_ok i_empty /\ forallb no_export ex_export_hist = false /\
+  let s := isteps i_empty ex_export_hist in
+  ohas 10 (by_denom s) = true /\ In 11 (metal s 10) /\ oget 11 (alias s) = None /\ ~ idx_ok s.
+Proof.
+  split; [apply idx_ok_empty|]. split; [reflexivity|]. cbn zeta.
+  assert (H1 : ohas 10 (by_denom (isteps i_empty ex_export_hist)) = true) by (vm_compute; reflexivity).
+  assert (H2 : In 11 (metal (isteps i_empty ex_export_hist) 10)) by (vm_compute; left; reflexivity).
+  assert (H3 : oget 11 (alias (isteps i_empty ex_export_hist)) = None) by (vm_compute; reflexivity).
+  split; [exact H1|]. split; [exact H2|]. split; [exact H3|].
+  intros [_ _ _ _ P5]. specialize (P5 10 11 H1 H2). rewrite H3 in P5. discriminate.
+Qed.
+(* consequences on the real application (each exercised by the harness after the import): the alias can be registered
+   again as a denom of its own or as an alias of ANOTHER denom *)
+Theorem alias_reusable_after_export_import :
+  let s := isteps i_empty ex_export_hist in
+  snd (istep s (IRegisterCoin 20 [11] 501)) = true /\ snd (istep (isteps i_empty [IRegisterCoin 10 [11; 12] 500]) (IRegisterCoin 20 [11] 501)) = false.
+Proof. vm_compute. split; reflexivity. Qed.
 
 Example indexes_nonvacuous :
   let s := isteps i_empty [IRegisterCoin 10 [11; 12] 500; IRegisterERC20 501 20 [21]; IToggle true 500; IUpdateAlias 10 13;
